@@ -78,6 +78,12 @@ CHECKS = {
             "every routine are compared element by element with values TLC computes from the definitions; error classes at the size/capacity boundaries are "
             "compared on all fields.",
             "Tiny-field monomorphizations of the generic routines; sizes above 128 only at error boundaries."),
+    "C11": ("DESIGN.md#c11--seed-streams-and-field-sampling",
+            "TLA+ refinement check of the Prng look-ahead buffer machine against the abstract rejection sampler (Prng.tla, TLC exhaustive); TLC-generated "
+            "sampling scripts replayed on the real Prng/IntoFieldVec (hook H3); XOF chunking scripts executed on the real XOFs and trace-validated as one function",
+            "Exhaustive refinement check of the buffer/leftover/field-switch logic at small sizes; scripted rejections at every buffer position and across refills "
+            "on all seven fields with expected elements from TLC; every tag/binder split and boundary-straddling read sequence on all XOF families validated by TLC.",
+            "XOF primitives are oracles; buffer size 32 in the implementation vs 3 in the exhaustive model (the scripts cover the real size)."),
 }
 
 NOT_YET = {}
